@@ -35,7 +35,12 @@ def gen_kind_vector(rng: random.Random, n: int, allow_eq: bool, allow_ineq: bool
         elif kind == "eq":
             lo.append(v); hi.append(v)
         elif kind == "two":
-            lo.append(v); hi.append(round(v + rng.uniform(0.2, 2.0), 3))
+            if rng.random() < 0.25:
+                # a band that is narrow relative to the size of its bounds (e.g. [2000, 2000.01])
+                big = round(rng.choice([-1, 1]) * rng.uniform(500.0, 5000.0), 1)
+                lo.append(big); hi.append(big + round(abs(big) * rng.uniform(2e-6, 8e-6), 6))
+            else:
+                lo.append(v); hi.append(round(v + rng.uniform(0.2, 2.0), 3))
         else:
             lo.append(-INF); hi.append(INF)
         kinds.append(kind)
